@@ -448,6 +448,7 @@ pub(crate) mod verif_state {
         #[kani::stub(alloc::alloc::alloc, crate::verif::common::stub_alloc)]
         #[kani::stub(alloc::alloc::dealloc, crate::verif::common::stub_dealloc)]
         #[kani::stub(alloc::alloc::realloc, crate::verif::common::stub_realloc)]
+        #[kani::stub(alloc::fmt::format, crate::verif::common::stub_format)]
         fn hist_c18_n5() { let _ = hist::<NoopLock, _>(&mut KaniSrc, 0, 5, P18); }
         macro_rules! hist_proof {
             ($name:ident, $lock:ty, $n:expr, $p:expr, $unw:expr) => {
